@@ -49,6 +49,84 @@ def _cov_env():
     }
 
 
+def _names_nest(repo, cls, fn, call):
+    """Layout of the list handed to set_parameter_names: built from a source
+    sequence of the selected names (one per selected parameter) repeated
+    n_cov times, by a loop `acc += [name] * k`, a nested comprehension,
+    np.repeat or np.tile / list multiplication.  The source sequence is the
+    iterable of the loop / first argument of the repeat call."""
+    arg = call.args[0]
+    ncov = {'self._n_covariates': N_COV, 'n_cov': N_COV}
+    SEL = Arr((Ax(N_SEL, ((N_SEL.name, N_SEL),)),), is_list=True)
+
+    class L(ShapeLifter):
+        sources = ()
+
+        def ev(self, n, env, fn_, depth, owner):
+            if any(n is x for x in self.sources):
+                return SEL
+            return super().ev(n, env, fn_, depth, owner)
+
+        def _call(self, n, env, fn_, depth, owner):
+            f = U(n.func)
+            if f.endswith('_covariate_model.n_covariates'):
+                return N_COV
+            if f in ('np.repeat', 'np.tile') and len(n.args) == 2:
+                v = self.ev(n.args[0], env, fn_, depth, owner)
+                k = self.as_int(self.ev(n.args[1], env, fn_, depth, owner))
+                if isinstance(v, Arr) and v.ndim == 1 and k is not None:
+                    rep = ((str(k), k),)
+                    nest = v.axes[0].nest + rep if f == 'np.repeat' \
+                        else rep + v.axes[0].nest
+                    return Arr((Ax(v.axes[0].size * k, nest),), is_list=True)
+            return super()._call(n, env, fn_, depth, owner)
+
+    def nest_of(val):
+        if isinstance(val, Arr) and val.ndim == 1:
+            return val.axes[0].nest
+        return None
+
+    def sources_of(expr):
+        out = []
+        for n in ast.walk(expr):
+            if isinstance(n, ast.comprehension) and not (
+                    isinstance(n.iter, ast.Call)
+                    and U(n.iter.func) == 'range'):
+                out.append(n.iter)
+            if isinstance(n, ast.Call) and U(n.func) in (
+                    'np.repeat', 'np.tile') and n.args:
+                out.append(n.args[0])
+        return out
+    lf = L(repo, cls)
+    if not isinstance(arg, ast.Name):
+        lf.sources = sources_of(arg)
+        return nest_of(lf.ev(arg, dict(ncov), fn, 0, cls))
+    x = arg.id
+    # last construction of x before the call
+    best = None
+    for st in ast.walk(fn):
+        if st.__class__ is ast.For and st.lineno < call.lineno and any(
+                isinstance(a, ast.AugAssign) and U(a.target) == x
+                for a in st.body):
+            if best is None or st.lineno > best.lineno:
+                best = st
+        if isinstance(st, ast.Assign) and st.lineno < call.lineno and any(
+                U(t) == x for t in st.targets) and not (
+                isinstance(st.value, ast.List) and not st.value.elts):
+            if best is None or st.lineno > best.lineno:
+                best = st
+    if best is None:
+        return None
+    if isinstance(best, ast.For):
+        lf.sources = [best.iter]
+        env = dict(ncov)
+        env[x] = Arr((Ax(0, ()),), is_list=True)
+        lf.for_loop(best, env, fn, 0, cls)
+        return nest_of(env.get(x))
+    lf.sources = sources_of(best.value)
+    return nest_of(lf.ev(best.value, dict(ncov), fn, 0, cls))
+
+
 def r07_1(ctx, repo):
     rule = 'R07.1'
     want = ((N_SEL.name, N_SEL), (N_COV.name, N_COV))
@@ -141,40 +219,33 @@ def r07_1(ctx, repo):
         if len(layouts) < 3:
             ctx.error(rule, '%s: only %d of 3 layout sites derived (%s)' % (
                 cls, len(layouts), ', '.join(layouts)))
-    # (4) names the covariate population model hands to the covariate model
+    # (4) names the covariate population model hands to the covariate model:
+    # the list passed to set_parameter_names is laid out (selected > n_cov)
     cls = 'CovariatePopulationModel'
     for m in ('__init__', 'set_dim_names', 'set_population_parameters'):
         fn = repo.method(cls, m)
         construct = '%s.%s' % (cls, m)
-        for st in ast.walk(fn):
-            if not isinstance(st, ast.For):
+        for call in ast.walk(fn):
+            if not (isinstance(call, ast.Call) and U(call.func).endswith(
+                    '_covariate_model.set_parameter_names') and call.args):
                 continue
-            aug = [x for x in st.body if isinstance(x, ast.AugAssign)]
-            if len(aug) != 1 or not isinstance(aug[0].value, ast.BinOp):
-                continue
-            v = aug[0].value
-            # `acc += [name] * <count>`
-            if isinstance(v.left, ast.List) and isinstance(v.op, ast.Mult):
-                cnt = U(v.right)
-                if cnt in ('self._n_covariates', 'n_cov',
-                           'self._covariate_model.n_covariates()'):
-                    ctx.ok(rule, repo.loc(st, cls, m), construct,
-                           'names repeat each selected parameter n_cov '
-                           'times (selected > covariate)', engine=ENG)
-                else:
-                    ctx.violation(
-                        rule, repo.loc(st, cls, m), construct,
-                        'names repeat ' + cnt,
-                        'covariate parameter names repeat each selected '
-                        'name `%s` times instead of n_cov times' % cnt,
-                        engine=ENG)
-            elif isinstance(v.right, ast.List) or isinstance(
-                    v.left, ast.Name):
+            nest = _names_nest(repo, cls, fn, call)
+            where = repo.loc(call, cls, m)
+            if nest is None:
+                ctx.error(rule, '%s: construction of the names handed to '
+                          'the covariate model (`%s`) not recognised' % (
+                              construct, U(call.args[0])[:40]))
+            elif nest_eq(nest, want):
+                ctx.ok(rule, where, construct,
+                       'names repeat each selected parameter n_cov times '
+                       '(selected > covariate)', engine=ENG)
+            else:
                 ctx.violation(
-                    rule, repo.loc(st, cls, m), construct, 'names nesting',
-                    'covariate parameter names are not built as '
-                    '(selected > covariate): `%s`' % U(aug[0])[:60],
-                    engine=ENG)
+                    rule, where, construct, 'names nesting',
+                    'the covariate parameter names handed to the covariate '
+                    'model are laid out (%s); the coefficient vector is '
+                    '(n_selected > n_cov): names label the wrong '
+                    'coefficients' % nest_str(nest), engine=ENG)
     ctx.floor(rule, 8)
 
 
@@ -271,13 +342,33 @@ def r07_4(ctx, repo):
                 tests = [c for c in ast.walk(loop) if isinstance(
                     c, ast.Compare) and isinstance(c.ops[0], (ast.In,
                                                               ast.NotIn))
-                    and isinstance(c.left, ast.Name) and c.left.id == x]
+                    and isinstance(c.left, ast.Name)]
+                # only tests on the row itself or on a value built from it
+                def from_row(name, depth=0):
+                    if name == x:
+                        return True
+                    if depth > 2:
+                        return False
+                    for a in ast.walk(loop):
+                        if isinstance(a, ast.Assign) and isinstance(
+                                a.targets[0], ast.Name) and \
+                                a.targets[0].id == name and any(
+                                    isinstance(y, ast.Name) and from_row(
+                                        y.id, depth + 1) and y.id != name
+                                    for y in ast.walk(a.value)):
+                            return True
+                    return False
+                tests = [c for c in tests if from_row(c.left.id)]
                 if not tests:
                     continue
-                # rebinding of x to a list before the test is fine
+                tested = tests[0].left.id
+                # the tested value is a fresh python list / tuple of scalars
+                # (built before the test), not the raw row
                 rebound = any(isinstance(a, ast.Assign) and isinstance(
-                    a.targets[0], ast.Name) and a.targets[0].id == x
-                    and a.lineno < tests[0].lineno for a in ast.walk(loop))
+                    a.targets[0], ast.Name) and a.targets[0].id == tested
+                    and a.lineno < tests[0].lineno
+                    and isinstance(a.value, (ast.List, ast.Tuple))
+                    for a in ast.walk(loop))
                 pidx = params.index(loop.iter.id)
                 array_callers = []
                 for rel, c2, f2 in repo.all_functions():
@@ -674,32 +765,65 @@ def r02_4(ctx, repo):
         fn = repo.method(cls, m)
         construct = '%s.%s' % (cls, m)
         roles = {}
-        for s in fn.body:
-            if isinstance(s, ast.Assign) and isinstance(
-                    s.targets[0], ast.Name) and isinstance(
-                    s.value, ast.Subscript) and U(s.value.value) == \
-                    'parameters' and isinstance(s.value.slice, ast.Slice):
-                sl = s.value.slice
+
+        def role_of(e):
+            """('BOTTOM'|'TOP', cut) of an expression: a one-sided slice of
+            the flat vector, a name bound to one, or the individual block
+            returned by the population transform."""
+            if isinstance(e, ast.Name):
+                return roles.get(e.id)
+            if isinstance(e, ast.Subscript) and U(e.value) == 'parameters' \
+                    and isinstance(e.slice, ast.Slice):
+                sl = e.slice
                 if sl.lower is None and sl.upper is not None:
-                    roles[s.targets[0].id] = ('BOTTOM', U(sl.upper), s)
-                elif sl.upper is None and sl.lower is not None:
-                    roles[s.targets[0].id] = ('TOP', U(sl.lower), s)
-        cuts = {c for _, c, _ in roles.values()}
+                    return ('BOTTOM', U(sl.upper), e)
+                if sl.upper is None and sl.lower is not None:
+                    return ('TOP', U(sl.lower), e)
+            if isinstance(e, ast.Call) and U(e.func) in (
+                    'np.asarray', 'np.array', 'np.copy') and e.args:
+                return role_of(e.args[0])
+            return None
+        slices = {}
+        for x in ast.walk(fn):
+            r = role_of(x) if isinstance(x, ast.Subscript) else None
+            if r:
+                slices[U(x)] = r
+        for st in ast.walk(fn):
+            if isinstance(st, ast.Assign) and len(st.targets) == 1 \
+                    and isinstance(st.targets[0], ast.Name):
+                r = role_of(st.value)
+                if r and st.targets[0].id not in roles:
+                    roles[st.targets[0].id] = r
+        allroles = dict(slices)
+        allroles.update(roles)
+        roles_view = allroles
+        cuts = {c for _, c, _ in roles_view.values()}
         where = repo.loc(fn, cls, m)
-        if sorted(r for r, _, _ in roles.values()) != ['BOTTOM', 'TOP'] \
+        if {r for r, _, _ in roles_view.values()} != {'BOTTOM', 'TOP'} \
                 or cuts != {'self._n_bottom'}:
             ctx.violation(
                 rule, where, construct, 'cut',
                 'the flat vector is not cut into [:n_bottom] (individual '
                 'level) and [n_bottom:] (population level): %s' % {
-                    k: (r, c) for k, (r, c, _) in roles.items()},
+                    k: (r, c) for k, (r, c, _) in roles_view.items()},
                 engine=ENG)
             continue
         ctx.ok(rule, where, construct, 'vector cut at self._n_bottom: '
                'bottom first, population parameters last', engine=ENG)
         # role discipline at the population-model calls
-        bottom = [k for k, v in roles.items() if v[0] == 'BOTTOM'][0]
-        top = [k for k, v in roles.items() if v[0] == 'TOP'][0]
+        bottom = ([k for k, v in roles.items() if v[0] == 'BOTTOM']
+                  or ['parameters[:self._n_bottom]'])[0]
+        top = ([k for k, v in roles.items() if v[0] == 'TOP']
+               or ['parameters[self._n_bottom:]'])[0]
+        # names bound to the individual block returned by the transform
+        for st in ast.walk(fn):
+            if isinstance(st, ast.Assign) and len(st.targets) == 1 \
+                    and isinstance(st.targets[0], ast.Name) and isinstance(
+                    st.value, ast.Call) and U(st.value.func) == \
+                    'self._population_model.compute_individual_parameters':
+                roles.setdefault(st.targets[0].id, ('BOTTOM',
+                                                    'self._n_bottom', st))
+        roles.setdefault('psi', ('BOTTOM', 'self._n_bottom', None))
         for c in ast.walk(fn):
             if not (isinstance(c, ast.Call) and isinstance(
                     c.func, ast.Attribute) and U(c.func.value) ==
@@ -716,8 +840,10 @@ def r02_4(ctx, repo):
             second = args.get('eta', args.get('observations',
                                               pos[1] if len(pos) > 1
                                               else None))
-            ok = isinstance(p, ast.Name) and p.id == top and isinstance(
-                second, ast.Name) and second.id in (bottom, 'psi')
+            rp = role_of(p) if p is not None else None
+            rs = role_of(second) if second is not None else None
+            ok = rp is not None and rp[0] == 'TOP' and rs is not None \
+                and rs[0] == 'BOTTOM'
             if ok:
                 ctx.ok(rule, repo.loc(c, cls, m), construct,
                        '`%s` receives the population block as parameters '
